@@ -143,13 +143,15 @@ both_families! {
 			($T:ty, $TBuf:ty, $wrap:expr, |$r:ident| $get:expr) => {{
 				if <$T>::new(t).is_err() { return Ok(false) }
 				if case.embedded {
-					let whole: String = $wrap;
-					let $r = match Ri::new(whole.as_str()) { Ok(r) => r, Err(_) => return Ok(false) };
-					let comp: &$T = match $get { Some(c) => c, None => return Ok(false) };
-					// a valid component contains none of the delimiters that could split it, so it must come back unchanged
-					ensure!(comp.as_str() == t, "embedded-component-differs", "{:?} embedded in {:?} is read back as {:?}", t, whole, comp.as_str());
-					let v = guard(|| comp.as_pct_str()).map_err(|p| Failure::new(format!("as_pct_str-panics:{}", p.loc), format!("{:?}: as_pct_str() panicked: {}", t, p.msg)))?;
-					judge(case, v, cx)?;
+					let wholes: Vec<String> = $wrap;
+					for whole in wholes {
+						let $r = match Ri::new(whole.as_str()) { Ok(r) => r, Err(_) => return Ok(false) };
+						let comp: &$T = match $get { Some(c) => c, None => return Err(Failure::new("embedded-component-missing", format!("{:?} embedded in {:?}: the accessor returns nothing", t, whole))) };
+						// a valid component contains none of the delimiters that could split it, so it must come back unchanged
+						ensure!(comp.as_str() == t, "embedded-component-differs", "{:?} embedded in {:?} is read back as {:?}", t, whole, comp.as_str());
+						let v = guard(|| comp.as_pct_str()).map_err(|p| Failure::new(format!("as_pct_str-panics:{}", p.loc), format!("{:?}: as_pct_str() panicked: {}", t, p.msg)))?;
+						judge(case, v, cx)?;
+					}
 				} else {
 					let comp = match <$T>::new(t) { Ok(c) => c, Err(_) => return Ok(false) };
 					let v = guard(|| comp.as_pct_str()).map_err(|p| Failure::new(format!("as_pct_str-panics:{}", p.loc), format!("{:?}: as_pct_str() panicked: {}", t, p.msg)))?;
@@ -162,31 +164,31 @@ both_families! {
 		}
 		match case.kind {
 			CKind::UserInfo => {
-				go!(UserInfo, UserInfoBuf, format!("s://{t}@h/p"), |r| r.authority().and_then(|a| a.user_info()));
+				go!(UserInfo, UserInfoBuf, vec![format!("s://{t}@h/p"), format!("http://{t}@[::1]:80"), format!("s://{t}@:1#/f"), format!("s://{t}@12345")], |r| r.authority().and_then(|a| a.user_info()));
 				if !case.embedded {
 					let ob = UserInfoBuf::new(t.into()).unwrap().into_pct_string();
 					ensure!(ob.as_str() == t, "into_pct_string", "{:?}: into_pct_string() = {:?}", t, ob.as_str());
 				}
 			}
 			CKind::Host => {
-				go!(Host, HostBuf, format!("s://u@{t}:1/p"), |r| r.authority().map(|a| a.host()));
+				go!(Host, HostBuf, vec![format!("s://u@{t}:1/p"), format!("s://user:12345@{t}/"), format!("http://{t}#/f"), format!("s://a:b:c:d:e:f:g:h:i@{t}:65535?q"), format!("s://{t}")], |r| r.authority().map(|a| a.host()));
 				if !case.embedded {
 					let ob = HostBuf::new(t.into()).unwrap().into_pct_string();
 					ensure!(ob.as_str() == t, "into_pct_string", "{:?}: into_pct_string() = {:?}", t, ob.as_str());
 				}
 			}
 			CKind::Segment => {
-				go!(Segment, SegmentBuf, format!("s://h/a/{t}"), |r| r.path().segments().last());
+				go!(Segment, SegmentBuf, vec![format!("s://h/a/{t}"), format!("s:/x/{t}"), format!("s:a/b/c/d/e/f/g/h/i/j/k/l/m/n/o/p/q/{t}?q/r#f/g")], |r| r.path().segments().last());
 			}
 			CKind::Query => {
-				go!(Query, QueryBuf, format!("s:/p?{t}#f"), |r| r.query());
+				go!(Query, QueryBuf, vec![format!("s:/p?{t}#f"), format!("s://h?{t}"), format!("http://u@h:1?{t}#?")], |r| r.query());
 				if !case.embedded {
 					let ob = QueryBuf::new(t.into()).unwrap().into_pct_string();
 					ensure!(ob.as_str() == t, "into_pct_string", "{:?}: into_pct_string() = {:?}", t, ob.as_str());
 				}
 			}
 			CKind::Fragment => {
-				go!(Fragment, FragmentBuf, format!("s:/p?q#{t}"), |r| r.fragment());
+				go!(Fragment, FragmentBuf, vec![format!("s:/p?q#{t}"), format!("s://h#{t}"), format!("https://h:1#{t}")], |r| r.fragment());
 				if !case.embedded {
 					let ob = FragmentBuf::new(t.into()).unwrap().into_pct_string();
 					ensure!(ob.as_str() == t, "into_pct_string", "{:?}: into_pct_string() = {:?}", t, ob.as_str());
